@@ -247,8 +247,13 @@ def gen_case(rng, lattice, maxcells=40, budget=4000):
 
 
 def case_cfg(case):
+    """the configuration init_mix sees: read_transport turns 'closed' into 'flux' when there is advection"""
+    bcf, bcl = case["bcf"], case["bcl"]
+    if case["ishift"] != 0:
+        bcf = 3 if bcf == 2 else bcf
+        bcl = 3 if bcl == 2 else bcl
     return dict(lens=[fr(x) for x in case["lens"]], disps=[fr(x) for x in case["disps"]], diffc=fr(case["diffc"]),
-                timest=fr(case["timest"]), ishift=case["ishift"], bcf=case["bcf"], bcl=case["bcl"], corrd=case["corrd"])
+                timest=fr(case["timest"]), ishift=case["ishift"], bcf=bcf, bcl=bcl, corrd=case["corrd"])
 
 
 # ----------------------------------------------------------------------------- reading results
@@ -288,8 +293,43 @@ def near_integer(x, eps=Fr(1, 10 ** 9)):
     return abs(x - round(x)) <= eps * max(1, abs(x))
 
 
-def compare_tracer_case(case, res):
-    """python-mirror comparison over all cells/shifts. returns dict(status=..., detail=...)"""
+def isqrt_up(fr_x):
+    """rational upper bound of sqrt(x) (x >= 0), relative excess < 1e-12"""
+    if fr_x <= 0:
+        return Fr(0)
+    import math
+    sc = 10 ** 60
+    v = math.isqrt(int(fr_x * sc * sc)) + 1
+    return Fr(v, sc)
+
+
+def slack(t):
+    """what one speciation may legally change in a saved element total t: the engine accepts a mass-balance
+    row when |residual| <= convergence_tolerance * t (1e-12 here) or |residual| <= sqrt(t * MIN_TOTAL)
+    (model.cpp: residuals / check_residuals), and the saved total is the species sum; plus rounding."""
+    t = abs(t)
+    return max(t / 10 ** 12, isqrt_up(t * Fr(1, 10 ** 25))) + t / 10 ** 14
+
+
+def shift_slack(cfg, nmix, ms, after):
+    """propagated engine slack for one transport step, per cell: every mix run / the advective step ends
+    with a speciation of each cell; convex mixing propagates earlier slack with the same weights."""
+    n = len(after)
+    # amounts during the step are between neighbours' values; use the end-of-step amounts' local maximum (3-cell window per substep)
+    e = [Fr(0)] * n
+    loc = [abs(x) for x in after]
+    steps = nmix + (1 if cfg["ishift"] != 0 else 0)
+    for _ in range(steps):
+        e = mix_step(ms, Fr(0), Fr(0), e) if nmix else e
+        loc = [max(loc[max(0, i - 1):i + 2]) for i in range(n)]
+        e = [e[i] + slack(loc[i]) for i in range(n)]
+    return e
+
+
+def compare_tracer_case(case, res, collect=None):
+    """stepwise comparison with the python mirror: the state the implementation reported after shift s-1 is
+    pushed through one exact model shift and compared with what it reported after shift s.
+    collect (list) receives (column, shift, prev, cL, cR, obs, tol) tuples for the Coq checker."""
     if res.get("timeout") or res.get("crash"):
         return dict(status="engine-timeout" if res.get("timeout") else "engine-crash", detail=res.get("stderr", "")[-300:])
     if res.get("rc", 1) != 0:
@@ -306,33 +346,38 @@ def compare_tracer_case(case, res):
     isol, init, steps = parse_rows(res)
     n = case["n"]
     cols = ["m" + t for t in TRACERS] + ["cb"]
-    st = {}
-    bnd = {}
-    for c in cols:
-        try:
-            st[c] = [Fr(init[k][c]) for k in range(1, n + 1)]
-            bnd[c] = (Fr((init.get(0) or isol[0])[c]), Fr((init.get(n + 1) or isol[n + 1])[c]))
-        except KeyError as ex:
-            return dict(status="missing-rows", detail=repr(ex))
-    ionscale = sum(max([abs(x) for x in st["m" + t]] + [abs(y) for y in bnd["m" + t]]) for t in TRACERS) or Fr(1, 10 ** 6)
-    expect_rows = not (nmix == 0 and case["ishift"] == 0)
+    if nmix == 0 and case["ishift"] == 0:
+        return dict(status="ok-nothing-moves", nmix=0, detail="")
+    try:
+        obs = {0: {c: [Fr(init[k][c]) for k in range(1, n + 1)] for c in cols}}
+        bnd = {c: (Fr((init.get(0) or isol[0])[c]), Fr((init.get(n + 1) or isol[n + 1])[c])) for c in cols}
+        for s in range(1, case["shifts"] + 1):
+            obs[s] = {c: [Fr(steps[s][k][c]) for k in range(1, n + 1)] for c in cols}
+    except KeyError as ex:
+        return dict(status="missing-rows", detail=repr(ex))
+    worst = Fr(0)
     for s in range(1, case["shifts"] + 1):
+        # charge is a signed combination of the ion amounts: its slack is that of the ions
+        ion_e = [Fr(0)] * n
         for c in cols:
-            st[c] = one_shift(cfg, nmix, ms, bnd[c][0], bnd[c][1], st[c])
-        if not expect_rows:
-            continue
-        if s not in steps:
-            return dict(status="missing-rows", detail="no rows for shift %d" % s)
-        for c in cols:
-            for k in range(1, n + 1):
-                if k not in steps[s]:
-                    return dict(status="missing-rows", detail="no row for cell %d shift %d" % (k, s))
-                o = steps[s][k][c]
-                ok = close(o, st[c][k - 1], scale=ionscale if c == "cb" else None)
-                if not ok:
-                    return dict(status="mismatch", what="%s cell %d shift %d" % (c, k, s), observed=o,
-                                expected=float(st[c][k - 1]), detail="nmix=%d" % nmix)
-    return dict(status="ok", nmix=nmix, init=st, detail="")
+            prev = obs[s - 1][c]
+            exp = one_shift(cfg, nmix, ms, bnd[c][0], bnd[c][1], prev)
+            if c != "cb":
+                e = shift_slack(cfg, nmix, ms, exp)
+                ion_e = [ion_e[i] + e[i] + TOL * abs(exp[i]) for i in range(n)]
+                tol = [TOL * abs(exp[i]) + e[i] for i in range(n)]
+            else:
+                tol = [3 * ion_e[i] + Fr(1, 10 ** 18) for i in range(n)]
+            if collect is not None:
+                collect.append((c, s, prev, bnd[c][0], bnd[c][1], obs[s][c], tol))
+            for i in range(n):
+                d = abs(obs[s][c][i] - exp[i])
+                if d > tol[i]:
+                    return dict(status="mismatch", what="%s cell %d shift %d" % (c, i + 1, s), observed=float(obs[s][c][i]),
+                                expected=float(exp[i]), detail="nmix=%d tol=%.3g diff=%.3g" % (nmix, float(tol[i]), float(d)))
+                if exp[i] > Fr(1, 10 ** 6):
+                    worst = max(worst, d / exp[i])
+    return dict(status="ok", nmix=nmix, worst=float(worst), detail="")
 
 
 def run(ctx):
